@@ -43,26 +43,15 @@ ROUTES = ("api", "cli")
 def gen_points(rng, n):
     pts = []
     for i in range(n):
-        r = rng.random()
-        prepend = None if r < 0.45 else rng.choice(fam_gen.PREPENDS_GOOD) if r < 0.9 else rng.choice(fam_gen.PREPENDS_NO_NL)
-        r = rng.random()
-        if r < 0.4:
-            imports = {"how": "none"}
-        elif r < 0.65:
-            imports = {"how": "module"}
-        elif r < 0.8:
-            imports = {"how": "file"}
-        else:
-            k = rng.choice([0, 1, 1, 1, 2, 3])
-            lines = rng.sample(fam_gen.IMPORT_LINES, k)
-            if rng.random() < 0.25:
-                lines.insert(0, fam_gen.FUTURE)
-            imports = {"how": "other", "src": "\n".join(lines) + "\n"}
+        # domain="wellformed": prepend in {none, valid text with / without final newline, with docstring, with imports,
+        # importing the input module} x imports-from-file in {none, module name (dotted when the input module lives in a
+        # package), file path, another file, symbol path of an object of the input module at depth 1..4 with the prepended
+        # import that makes it resolvable} x layout of the input module (flat, package, nested package, re-exporting)
         c = fam_gen.gen_case(
             rng, mostly_good=rng.random() < 0.7,
             type_=rng.choice(["class", "class", "argparse", "argparse", "function"]),
             name_tpl=rng.choice(fam_gen.TEMPLATES_GOOD[:2] * 3 + fam_gen.TEMPLATES_GOOD),
-            prepend=prepend, imports=imports, mapping_ref="ok", plain_keys=True,
+            domain="wellformed", mapping_ref="ok", plain_keys=True,
             existing=None if rng.random() < 0.8 else rng.choice(["OLD = 1\n", "# old file", ""]))
         c["opts"] = {"emit_call": False, "emit_default_doc": True, "decorator_list": None}
         c["route"] = "api" if rng.random() < 0.8 else "cli"
@@ -93,6 +82,8 @@ def escape_prepend(p):
 def _run_api(case, ws):
     m = impl()
     o = case["opts"]
+    saved_globals = dict(m.gen.__dict__)     # gen copies the names its prepend imports into its own module globals
+    fam_gen.forget_case_modules()            # as in a fresh interpreter: nothing of the input package is imported yet
     try:
         with contextlib.redirect_stdout(io.StringIO()), warnings.catch_warnings():
             warnings.simplefilter("ignore")
@@ -101,6 +92,9 @@ def _run_api(case, ws):
                       decorator_list=o["decorator_list"])
     except Exception as e:  # noqa
         return fam_gen.kind_of(e)
+    finally:
+        m.gen.__dict__.clear()
+        m.gen.__dict__.update(saved_globals)
     return None
 
 
@@ -201,7 +195,10 @@ def evaluate(case, ws, exc):
         except SyntaxError:
             return False, "prepend is not valid Python"
     if ws["imp_arg"] is not None:
-        fpath = ws["imp_arg"] if os.path.isfile(ws["imp_arg"]) else inspect.getfile(importlib.import_module(ws["imp_arg"]))
+        try:
+            fpath = fam_gen.resolve_imports_file(ws["imp_arg"], case["prepend"])
+        except Exception as e:  # noqa
+            return False, "imports_from_file names nothing that can be resolved (%s)" % fam_gen.kind_of(e)
         expect += [s for s in ast.parse(open(fpath).read()).body if isinstance(s, (ast.Import, ast.ImportFrom))]
     if sorted(ast.dump(s) for s in header) != sorted(ast.dump(s) for s in expect):
         return False, "header statements differ from prepend + imports (each once): %r vs %r" % (
@@ -305,7 +302,8 @@ _FEAT_A = dict(kind="class", obj="A", doc_style="typed", annotated=False, params
 
 
 def _w(uid, src, entries, **kw):
-    c = {"fam": "gen", "fn": "gen", "uid": "w" + uid, "tags": ["witness"], "module": _mod(src, entries), "type_": "class",
+    c = {"fam": "gen", "fn": "gen", "uid": "w" + uid, "modbase": "w" + uid, "tags": ["witness"], "module": _mod(src, entries),
+         "type_": "class",
          "name_tpl": "{name}Config", "prepend": None, "imports": {"how": "none"}, "mapping_ref": "ok", "existing": None,
          "opts": {"emit_call": False, "emit_default_doc": True, "decorator_list": None}, "route": "api"}
     c.update(kw)
@@ -344,6 +342,21 @@ def witnesses():
         (None, _w("4", "import os\n\n" + base, ea, imports={"how": "module"}, prepend="PI = 3")),
         (None, _w("9", base, ea, type_="function", route="cli")),
         (None, _w("10", "import os\nimport sys\n\n" + base, ea, imports={"how": "module"}, route="cli")),
+        # must hold: imports_from_file given as a symbol path ("if module or other symbol path given, resolve file then use
+        # it"), the prepended text importing what the path starts with; one anchor per depth of the path
+        (None, _w("14", "import os\nimport sys\n\n" + base, ea, imports={"how": "symbol", "form": "obj"},
+                  prepend="import verif_genin_w14\n")),
+        (None, _w("15", "import os\nimport sys\n\n" + base, ea, imports={"how": "symbol", "form": "obj"},
+                  layout={"kind": "pkg", "depth": 1, "reexport": False}, prepend="import verif_genin_w15.mod\n",
+                  type_="argparse")),
+        (None, _w("16", "import os\n\n" + base, ea, imports={"how": "symbol", "form": "member"},
+                  layout={"kind": "pkg", "depth": 2, "reexport": True}, prepend="import verif_genin_w16.sub.mod",
+                  type_="function", route="cli")),
+        (None, _w("17", "from os import sep\n\n" + base, ea, imports={"how": "symbol", "form": "reexported"},
+                  layout={"kind": "pkg", "depth": 1, "reexport": True}, prepend='"""Doc"""\nimport verif_genin_w17\nX = 1\n')),
+        (None, _w("18", "import os\n\n" + base, ea, imports={"how": "symbol", "form": "from-mod"},
+                  layout={"kind": "pkg", "depth": 1, "reexport": False}, prepend="from verif_genin_w18 import mod\n",
+                  route="cli")),
     ]
 
 
@@ -382,6 +395,9 @@ def oracle(rng, tier):
         cls, guard = _decode_class(c)
         if cls == "out-of-domain":
             hist["out-of-domain"] += 1
+            if is_w:
+                failures.append({"case": brief, "what": "fixed witness is outside C19_domain (it witnesses nothing any more)",
+                                 "class": None})
             continue
         if mr == "(err Unmodelled)":
             hist["skipped-unmodelled"] += 1
@@ -404,8 +420,14 @@ def oracle(rng, tier):
         elif not ok:
             failures.append({"case": brief, "what": what, "class": cls})
         if guard and ok and p["existing"] is None:
-            key = dumps([p["module"]["src"], p["type_"], p["name_tpl"], opt(p["prepend"]), p["imports"]["how"],
-                         p["imports"].get("src", "")])
+            # (the prepend of a symbol-path point names the case's own module: its shape, not its text, makes it distinct)
+            key = dumps([p["module"]["src"], p["type_"], p["name_tpl"],
+                         opt(p["prepend"] and p["prepend"].replace(fam_gen.names_of(p)["base"], "<base>")),
+                         p["imports"]["how"], p["imports"].get("form", ""), p["imports"].get("src", ""),
+                         sorted((p.get("layout") or {}).items())])
+            hist["in-guard:imports-%s%s:prepend-%s" % (
+                p["imports"]["how"], "-" + p["imports"]["form"] if "form" in p["imports"] else "",
+                "none" if p["prepend"] is None else "final-newline" if p["prepend"].endswith("\n") else "no-final-newline")] += 1
             seen.add(key)
         if is_w:
             expected = wit[i - len(pts)][0]
